@@ -354,7 +354,6 @@ SideTexts(ps) == IF ps = << >> THEN << >>
 ReadExpr(ps) == LET p == Parse(Skeleton(ps)) IN IF p = REJECT THEN REJECT ELSE Elab(p)
 
 \* the echo of t reads back as t (up to re-association of products and sums)
-Reassociated(t) == LeftAssoc(View(t)) # View(t)
 \* (ps: the pieces of the echo of t)
 PiecesReadBack(ps, t) == Separated(ps) /\ LeftAssoc(ReadExpr(ps)) = LeftAssoc(View(t))
 ExprRoundTrip(v, t) == PiecesReadBack(PrintExpr(v, t), t)
@@ -364,7 +363,8 @@ ExprRoundTripExact(v, t) == ReadExpr(PrintExpr(v, t)) = View(t)
 \* the typed tree that reading the echo gives back when the round trip holds: products and sums
 \* re-associated to the left (everything else unchanged)
 RECURSIVE LeftAssocT(_), LeftRootT(_, _, _), LeftSeqT(_), LeftPartsT(_), LeftFieldsT(_)
-LeftRootT(tag, l, r) == IF r[1] = tag THEN LeftRootT(tag, LeftRootT(tag, l, r[2]), r[3]) ELSE <<tag, l, r>>
+\* (a fused product  2 metre / 2 x  is written by juxtaposition, which binds tighter than ×: it stays one operand)
+LeftRootT(tag, l, r) == IF r[1] = tag /\ ~IsFused(r) THEN LeftRootT(tag, LeftRootT(tag, l, r[2]), r[3]) ELSE <<tag, l, r>>
 LeftSeqT(s) == IF s = << >> THEN << >> ELSE <<LeftAssocT(Head(s))>> \o LeftSeqT(Tail(s))
 LeftPartsT(ps) == IF ps = << >> THEN << >>
                   ELSE <<IF Head(ps)[1] = "ipl" THEN <<"ipl", LeftAssocT(Head(ps)[2]), Head(ps)[3]>> ELSE Head(ps)>> \o LeftPartsT(Tail(ps))
@@ -383,6 +383,9 @@ LeftAssocT(t) ==
     [] t[1] = "mk" -> <<"mk", t[2], LeftFieldsT(t[3])>>
 \* the echo of the echo (given that the echo reads back): the text the fixpoint clause of C15 compares with
 SecondEcho(v, t) == PrintExpr(v, LeftAssocT(t))
+Reassociated(t) == LeftAssocT(t) # t
+\* LeftAssocT mirrors the reader exactly: (given that the echo ps of t reads back) what is read is the view of LeftAssocT(t)
+MirrorsReader(ps, t) == ReadExpr(ps) = View(LeftAssocT(t))
 
 \* the table entries (context, class) at which the echo of t was written bare by "pinned" and is parenthesised by "repaired"
 RECURSIVE UsedDiff(_, _), UsedDiffSeq(_), UsedDiffParts(_), UsedDiffFields(_)
